@@ -6,7 +6,7 @@ import itertools
 from .. import core
 from ..core import Prop, Violation
 from ._coord import (CoordMixin, gen_cfg, gen_exec, gen_multi_kill, gen_ended_in_callback, gen_two_systems, gen_nest,
-                     gen_cnest, cnest_table, gen_tracked, request_kind_table, CP_SCRIPTS, DAY, HOUR)
+                     gen_cnest, cnest_table, gen_tracked, request_kind_table, CP_SCRIPTS, DAY, HOUR, pint, gen_prio)
 
 
 
@@ -51,7 +51,7 @@ class C14(CoordMixin, Prop):
             lines.append(f"res {r} {rng.choice('01')}")
         others = list(range(2, 2 + nothers))
         for o in others:
-            lines.append(f"start {o} {rng.randint(0, 5)}")
+            lines.append(f"start {o} {gen_prio(rng)}")
             for _ in range(rng.choice([0, 1, 1, 2, 3])):
                 lines.append(f"acq {o} {rng.randint(1, nres)}")
         return lines, others
@@ -64,7 +64,7 @@ class C14(CoordMixin, Prop):
         if c < 0.35:
             return f"rel {o} {rng.randint(1, nres)}"
         if c < 0.42:
-            return f"start {o} {rng.randint(0, 5)}"
+            return f"start {o} {gen_prio(rng)}"
         if c < 0.50:
             return rng.choice([f"complete {o}", f"abort {o}", f"kill {o}"])
         if c < 0.56:
@@ -82,7 +82,7 @@ class C14(CoordMixin, Prop):
         if c < 0.69:      # the phase machinery from outside: flags assigned, advance (also round the cycle)
             return rng.choice([f"advance {o}", f"advance {o}", f"flag {o} {rng.choice('rev')} {rng.choice('011')}"])
         if c < 0.70:
-            return f"track {rng.choice('01')} {o}"
+            return rng.choice([f"track {rng.choice('01')} {o}", f"prio {o} {gen_prio(rng)}"])
         return gen_exec(rng, rng.choice([1, 1, 1, 5]), nres, [x for x in ops if x != 1])
 
     def generate(self, rng, tier, n):
@@ -248,7 +248,7 @@ class C14(CoordMixin, Prop):
                 if prev is not None:
                     rtok = t[3].split("~")[0]          # `~<kind>`: the type of the iterable the request is passed as
                     req = [] if rtok in ("-", "none") else rtok.split(",")
-                    prio = int(t[2])
+                    prio = pint(t[2])
                     for r, l0 in prev["locks"].items():
                         l1 = st["locks"].get(r)
                         unobtainable = l0["owner"] not in ("-", op) and not (l0["pre"] and prio > l0["prio"])
